@@ -66,6 +66,7 @@ Definition run_tlv (op : Z) (a : args) : args :=
   | 1001 => ret (fun v => [v; [lv_packet_len v]; lv_pack v]) (lv_unpack (lst 0 a))
   | 1002 => ret (fun b => [[b2z b]])
               (do x <- lv_new (lst 0 a); do y <- lv_new (lst 1 a); Ok (lv_eqb x y))
+  | 1007 => ret (fun v => [lv_pack v; [lv_packet_len v]; v]) (lv_from_str (lst 0 a))
   (* generic TLV *)
   | 1003 => ret tlv_view (tlv_new (int 0 0 a) (lst 1 a))
   | 1004 => ret tlv_view (tlv_unpack (lst 0 a))
